@@ -25,19 +25,20 @@ PROBES = {
             "update_before_any_fh", "pickle_midway", "ensemble_parallel_update",
             "cutoff_restored_checked", "exogenous_data", "stale_batch", "failed_call_injected",
             "batching_invariance_checked", "labels_after_stale_checked",
-            "same_integers_other_kind", "frozen_model_same_time_points_checked"],
+            "same_integers_other_kind", "frozen_model_same_time_points_checked",
+            "components_reused_elsewhere"],
     "C03": ["gapped_fh", "absolute_fh", "fh_at_fit", "fh_reused_across_cutoffs",
             "predict_after_update", "shifted_twin_checked", "gapped_vs_contiguous_checked",
             "exogenous_data", "stale_batch", "failed_call_injected", "unsorted_fh", "fh_as_index",
             "labels_after_stale_checked",
             "int_index_nonzero_origin", "negative_origin", "composite_depth2",
-            "tuned_forecaster", "same_integers_other_kind"],
+            "tuned_forecaster", "same_integers_other_kind", "components_reused_elsewhere"],
 }
 FAULT_KINDS = {
     "C10": ["overlap_batch", "empty_batch", "pickle_roundtrip", "schedule_ooo",
-            "schedule_interleave", "peer_raises@k"],
+            "schedule_interleave", "peer_raises@k", "component_reuse"],
     "C03": ["overlap_batch", "pickle_roundtrip", "schedule_ooo", "schedule_interleave",
-            "index_shift", "peer_raises@k"],
+            "index_shift", "peer_raises@k", "component_reuse"],
 }
 RULE = {
     "C10": ("seeded histories over {fit, update(update_params), predict, update_predict_single, "
@@ -156,6 +157,10 @@ def generate(prop, rng, tier):
         if rng.random() < 0.12:
             ops.append({"op": "bad_call", "kind": rng.choice(["faulty_cv", "faulty_cv", "insample_X"]),
                         "after": rng.randint(0, 3), "take": rng.choice([6, 8])})
+    if spec["kind"] in ("ensemble", "stack", "ttf", "mux") and rng.random() < 0.3:
+        # the user goes on using the component objects they passed in (fits them elsewhere)
+        ops.insert(rng.randint(1, len(ops)), {"op": "reuse", "start": rng.randint(0, 5),
+                                              "n": rng.randint(8, 14)})
     # empty batches: only for leaf forecasters (whose update documents them) and only
     # while the cutoff is at the end of the data seen (not after an update_predict)
     seen_upd = False
@@ -790,6 +795,34 @@ class Engine:
             self.check_c03_prediction(i, p, outs[1][0] if len(outs) > 1 else None, steps, fhs)
         else:
             self.check_c10_prediction(i, p, steps)
+
+    def op_reuse(self, i, op):
+        """The component objects handed to the composite's constructor are the user's: the user
+        fits them on another series.  The composite works on private copies, so nothing that
+        is checked afterwards (labels, values, memory, cutoff) may change."""
+        for actor in self.actors():
+            f = actor.f
+            comps = []
+            for attr in ("forecasters", "steps"):
+                for item in getattr(f, attr, None) or []:
+                    comps.append(item[1])
+            if hasattr(f, "final_regressor"):
+                pass  # (a tabular regressor: not a time series estimator)
+            other = actor.y.iloc[op["start"]:op["start"] + op["n"]]
+            with peers.paused():
+                for c_ in comps:
+                    try:
+                        s2 = sched.Scheduler("fifo", 0)
+                        with sched.scenario_schedule(s2):
+                            if hasattr(c_, "predict"):
+                                c_.fit(other.copy(), fh=[1, 2])
+                            else:
+                                c_.fit(other.copy())
+                    except Exception:
+                        pass
+        self.res.probe("components_reused_elsewhere")
+        self.res.fault("component_reuse")
+        self.note("reuse", op["start"], op["n"])
 
     def op_pickle(self, i, op):
         def do(actor):
